@@ -492,7 +492,9 @@ class Ctx:
             "coverage": cov, "assumptions": self.assumptions,
             "wall_s": round(time.time() - self.t0, 2), "violations": len(self.violations),
         }
-        with open(os.path.join(VERIF, "evidence", f"{self.prop}.json"), "w") as fh:
+        evdir = os.environ.get("VERIF_EVIDENCE_DIR") or os.path.join(VERIF, "evidence")   # tools that run mutants redirect it
+        os.makedirs(evdir, exist_ok=True)
+        with open(os.path.join(evdir, f"{self.prop}.json"), "w") as fh:
             json.dump(ev, fh, indent=1, default=str)
         for ln in lines:
             print(ln)
